@@ -10,6 +10,8 @@ DefOut(e) == CASE e.pkg = "date"  -> FmtDate(D(e.val[1], e.val[2], e.val[3]), FA
                [] e.pkg = "uu"    -> FmtID(e.val)
 Plain(e) == IF e.pkg = "size" THEN DigStr(e.val) ELSE ""
 
+PropOf(pkg) == CASE pkg = "date" -> "C01" [] pkg = "roman" -> "C02" [] pkg = "sem" -> "C03" [] pkg = "size" -> "C13" [] pkg = "uu" -> "C05"
+
 ObsDemands(e) ==
   LET def == DefOut(e)
       m == MarshalRef(e.pkg, def, Plain(e), e.unitoff) IN
@@ -18,7 +20,10 @@ ObsDemands(e) ==
     <<"X.ovr_verb",    e.vs = StringRef(e.pkg, def, Plain(e))>>,
     <<"X.ovr_marshal", e.mt.ok = m.ok /\ (m.ok => e.mt.out = m.out)>>,
     <<"X.ovr_pretty",  e.pkg = "size" => (e.prettypanic = (oFmt["size"] = "error"))>>,
-    <<"X.ovr_urn",     e.pkg = "uu" => e.urn = "urn:uuid:" \o def>>
+    <<"X.ovr_urn",     e.pkg = "uu" => e.urn = "urn:uuid:" \o def>>,
+    \* with the default formatter in place (again), String() and %s are the property's own rendering,
+    \* whatever was installed earlier in the process
+    <<PropOf(e.pkg) \o ".restored", oFmt[e.pkg] = "default" => (e.str = def /\ e.vs = def)>>
   >>
 
 \* UnmarshalText with an overridden Parser, receiver preset to e.pre; stub parsers return e.stubval
